@@ -266,6 +266,13 @@ Plan generate_plan(const std::string& prop, unsigned long long vseed, unsigned l
                 if (r.chance(250)) { Op n; n.kind = r.chance(500) ? OP_MAKEOWNER : OP_NORMALIZE; n.a = q.a; n.entry = 1; n.opt = r.range(1, 63); p.ops.push_back(n); }
             }
         }
+        // an in-place operation that fails for lack of memory and whose object the caller goes on using: such survivors are URIs
+        // "produced by a sequence of library operations" too
+        if (r.chance(250)) {
+            std::vector<int> cand; for (int i = 0; i < (int)p.ops.size(); i++) if (p.ops[(size_t)i].kind == OP_NORMALIZE || p.ops[(size_t)i].kind == OP_MAKEOWNER) cand.push_back(i);
+            if (cand.empty()) { std::vector<int> ps; for (auto& o : p.ops) if (o.kind == OP_PARSE) ps.push_back(o.a); if (!ps.empty()) { Op n; n.kind = r.chance(500) ? OP_MAKEOWNER : OP_NORMALIZE; n.a = r.pick(ps); n.entry = 1; n.opt = r.range(1, 63); p.ops.push_back(n); cand.push_back((int)p.ops.size() - 1); } }
+            if (!cand.empty()) { Op& o = p.ops[(size_t)r.pick(cand)]; o.fail_k = r.range(1, 9); o.fail_mode = r.range(0, 1); o.keep = 1; }
+        }
         // the same buffer parsed as a shorter range (same first pointer, different afterLast)
         if (r.chance(400) && slot < 15) {
             std::vector<int> parses; for (int i = 0; i < (int)p.ops.size(); i++) if (p.ops[(size_t)i].kind == OP_PARSE && p.ops[(size_t)i].text.size() > 1) parses.push_back(i);
@@ -383,6 +390,18 @@ Plan generate_plan(const std::string& prop, unsigned long long vseed, unsigned l
                 else if (r.chance(500)) { o.kind = OP_ESCAPE; Op tmp; gen::query_items(r, tmp, 1, 10); o.text = tmp.keys[0] + (r.chance(300) ? "%41%0d%0A+" : ""); o.entry = r.range(0, 3); o.opt = r.range(0, 63); if ((o.opt & 3) == 3) o.text = r.pick(std::vector<std::string>{"1.2.3.4", "255.255.255.255", "256.1.1.1", "01.2.3.4", "1.2.3", "10.0.0.12", "1.2.3.4.5", "a.b.c.d", ""}); }
                 else { o.kind = OP_FILENAME; o.opt = r.range(0, 1); o.text = r.pick(std::vector<std::string>{"/bin/bash", "./configure", "C:\\Documents and Settings\\x", "\\\\Server01\\Letter.txt", "abc def", "E:/x y/%41", "/a/b c/\xe9", ""}) + (r.chance(300) ? gen::uri_text(r, tc) : ""); }
                 tops[(size_t)t].push_back(o);
+            }
+        }
+        // one world in three: a thread runs out of memory in the middle of a call while the others carry on with the shared inputs
+        if (r.chance(340)) {
+            int nf = r.range(1, 3);
+            for (int f = 0; f < nf; f++) {
+                int t = r.range(1, ntasks);
+                std::vector<int> cand;
+                for (int i = 0; i < (int)tops[(size_t)t].size(); i++) { int k = tops[(size_t)t][(size_t)i].kind; if (k == OP_PARSE || k == OP_ADDBASE || k == OP_REMOVEBASE || k == OP_NORMALIZE || k == OP_MAKEOWNER || k == OP_DISSECT || k == OP_COMPOSE_MALLOC) cand.push_back(i); }
+                if (cand.empty()) continue;
+                Op& o = tops[(size_t)t][(size_t)r.pick(cand)];
+                o.fail_k = r.range(1, 6); o.fail_mode = r.range(0, 1);
             }
         }
         // interleave task op lists in plan order (order inside a task is what matters)
